@@ -91,6 +91,8 @@ func (w *World) runStructural(spec string) []structResult {
 		return w.structPool()
 	case "fswriters":
 		return w.structFSWriters()
+	case "stdoutwriters":
+		return w.structStdoutWriters(strings.Split(parts[1], ","))
 	case "globalstore":
 		// globalstore:cache.Path=cache.init  (the global is only stored to by that function)
 		kv := strings.SplitN(parts[1], "=", 2)
@@ -331,4 +333,55 @@ func (w *World) structGlobalStore(global, only string) []structResult {
 		}
 	}
 	return []structResult{{Name: "globalstore:" + global + "-only-in-" + only, OK: len(bad) == 0 && n > 0, Detail: fmt.Sprintf("%d stores; %s", n, strings.Join(bad, "; "))}}
+}
+
+// structStdoutWriters (C20): the ghost record stdoutDocs is complete only if the process's standard
+// output is written by nothing else. Non-test code of /repo may call fmt.Print/Printf/Println and
+// refer to os.Stdout only inside the listed functions.
+func (w *World) structStdoutWriters(allowed []string) []structResult {
+	ok := map[string]bool{}
+	for _, a := range allowed {
+		ok[a] = true
+	}
+	var bad []string
+	n := 0
+	var keys []string
+	for k, f := range w.prog.funcs {
+		if f.Blocks != nil && f.Pkg != nil && strings.HasPrefix(f.Pkg.Pkg.Path(), "github.com/FollowTheProcess/spok") {
+			keys = append(keys, k)
+		}
+	}
+	sort.Strings(keys)
+	for _, k := range keys {
+		f := w.prog.funcs[k]
+		for _, b := range f.Blocks {
+			for _, ins := range b.Instrs {
+				what := ""
+				if c, isCall := ins.(ssa.CallInstruction); isCall {
+					if callee := c.Common().StaticCallee(); callee != nil {
+						switch funcKey(callee) {
+						case "fmt.Print", "fmt.Printf", "fmt.Println", "builtin.print", "builtin.println":
+							what = "call to " + funcKey(callee)
+						}
+					}
+					if bi, isB := c.Common().Value.(*ssa.Builtin); isB && (bi.Name() == "print" || bi.Name() == "println") {
+						what = "builtin " + bi.Name()
+					}
+				}
+				for _, op := range ins.Operands(nil) {
+					if gv, isG := (*op).(*ssa.Global); isG && gv.Pkg != nil && gv.Pkg.Pkg.Path() == "os" && gv.Name() == "Stdout" {
+						what = "reference to os.Stdout"
+					}
+				}
+				if what == "" {
+					continue
+				}
+				n++
+				if !ok[k] {
+					bad = append(bad, k+": "+what+" at "+w.prog.prog.Fset.Position(ins.Pos()).String())
+				}
+			}
+		}
+	}
+	return []structResult{{Name: "stdoutwriters:only-in-" + strings.Join(allowed, "+"), OK: len(bad) == 0 && n > 0, Detail: fmt.Sprintf("%d direct uses of the process's standard output; %s", n, strings.Join(bad, "; "))}}
 }
